@@ -336,7 +336,7 @@ def get_switched_peak_array_indices(values, tol=0.0):
     for i in range(1, len(peak_values)):
         sgn = np.sign(last)
         adj_val = peak_values[i] + tol * sgn  # if val is -ve then this will make value more +ve
-        if adj_val * last <= 0:  # only add index if sign changes (negative number)
+        if np.sign(adj_val) * sgn <= 0:  # only add index if sign changes (compare signs: a product can underflow)
             i_max_set = np.argmax(np.abs(peak_values_set))
             new_peak_indices.append(peak_indices_set[i_max_set])
 
